@@ -410,6 +410,133 @@ func runC17(c *Ctx) {
 	// every record that passes the length tests reaches the dispatch on its type: no path from the record-length test to
 	// the next iteration avoids the comparisons of the type field (a filter on class, TTL or anything else in between drops
 	// well-formed records - mDNS sets the top bit of the class on the records a responder owns)
+	// the group bit of an NBNS name entry is the top bit of the first flags octet (RFC 1002 4.2.18: NAME_FLAGS is a 16-bit
+	// field in network order): the value tested with 0x8000 in parseNodeNameArray is binary.BigEndian.Uint16 of the two
+	// octets behind the name, or is assembled with the first of them shifted left by eight
+	r.Rule("nbns-flags", "the NBNS group bit is read from the first flags octet", 1)
+	if fn := c.P.Func("handlers/dns_naming", "parseNodeNameArray"); fn != nil {
+		n := 0
+		core.EachInstr(fn, func(i ssa.Instruction) {
+			bo, ok := i.(*ssa.BinOp)
+			if !ok || bo.Op != token.AND {
+				return
+			}
+			var flags ssa.Value
+			for k, side := range []ssa.Value{bo.X, bo.Y} {
+				if cst, isC := side.(*ssa.Const); isC && cst.Value != nil && cst.Value.String() == "32768" {
+					flags = []ssa.Value{bo.Y, bo.X}[k]
+				}
+			}
+			if flags == nil {
+				return
+			}
+			n++
+			st, det := core.Violated, "the value tested for the group bit is "+norm(flags)+": not the big-endian reading of the two flags octets, so the bit tested is not the G bit of the entry (group names such as WORKGROUP are taken for the host's name)"
+			switch t := flags.(type) {
+			case *ssa.Call:
+				if cal := t.Call.StaticCallee(); cal != nil && cal.String() == "(encoding/binary.bigEndian).Uint16" && regexp.MustCompile(`\+16\):\(.*\+18\)\]$`).MatchString(norm(t.Call.Args[len(t.Call.Args)-1])) {
+					st, det = core.Proved, ""
+				}
+			case *ssa.BinOp:
+				if t.Op == token.OR || t.Op == token.ADD {
+					for _, side := range []ssa.Value{t.X, t.Y} {
+						if sh, isSh := side.(*ssa.BinOp); isSh && sh.Op == token.SHL && norm(sh.Y) == "8" && regexp.MustCompile(`\+16\)\]`).MatchString(norm(sh.X)) {
+							st, det = core.Proved, ""
+						}
+					}
+				}
+			}
+			r.Add(core.Obligation{Rule: "nbns-flags", Key: "nbns-flags parseNodeNameArray", Func: core.FuncName(fn), Pos: c.P.Pos(core.PosOf(i)), Status: st,
+				Basis: "flags = BigEndian.Uint16(b[index+16:index+18]) (or b[index+16]<<8 | b[index+17])", Detail: det})
+		})
+		if n == 0 {
+			r.Add(core.Obligation{Rule: "nbns-flags", Key: "nbns-flags parseNodeNameArray", Func: core.FuncName(fn), Status: core.Undecided, Detail: "no test of the group bit (& 0x8000) found"})
+		}
+	}
+	// a message that cannot be decoded is refused: in the entry points of the naming handler and in the DNS decoder no
+	// error returned by a function of the module is dropped (compared with nil and passed over, or ignored) - a truncated
+	// NBNS node name array was read as "no name, no error"
+	r.Rule("decode-errors", "the naming handler's entry points and the DNS decoder drop no error of a module function", 4)
+	{
+		kge := core.NewKeyGen()
+		nfn := 0
+		for _, fn := range c.P.ModuleFunctions() {
+			if fn.Pkg == nil {
+				continue
+			}
+			inScope := false
+			switch {
+			case fn.Pkg.Pkg.Name() == "dns_naming" && strings.HasPrefix(fn.Name(), "Process") && fn.Signature.Recv() != nil:
+				inScope = true
+			case fn.Pkg.Pkg.Name() == "dns_naming" && (strings.HasPrefix(fn.Name(), "process") || strings.HasPrefix(fn.Name(), "parse") || strings.HasPrefix(fn.Name(), "decode")):
+				inScope = true
+			case fn.Pkg.Pkg.Path() == core.ModPath && strings.HasSuffix(c.P.Pos(fn.Pos()), "") && strings.Contains(c.P.Pos(fn.Pos()), "layer_dns.go"):
+				inScope = true
+			}
+			if !inScope {
+				continue
+			}
+			nfn++
+			var bad []string
+			for _, call := range droppedErrors(fn, core.InModule) {
+				if strings.Contains(shortCallee(call), "fastlog") {
+					continue
+				}
+				bad = append(bad, shortCallee(call)+" at "+c.P.Pos(core.PosOf(call.(ssa.Instruction))))
+			}
+			st, det := core.Proved, ""
+			if len(bad) > 0 {
+				st = core.Violated
+				det = core.FuncName(fn) + " does not hand on the error of " + strings.Join(bad, ", ") + ": a record that the decoder refuses (truncated, malformed) is accepted as if nothing had been there"
+			}
+			r.Add(core.Obligation{Rule: "decode-errors", Key: strings.TrimSuffix(kge.Key("decode-errors "+core.FuncName(fn)), "#0"), Func: core.FuncName(fn), Pos: c.P.Pos(fn.Pos()), Status: st,
+				Basis: "every error result of a module callee flows to a return of the function", Detail: det})
+		}
+		_ = nfn
+	}
+	// a name that is known is not erased: every store into a NameEntry field of a MAC entry or host holds the first result
+	// of NameEntry.Merge (SetDHCPv4IPOffer assigned the name of the DISCOVER as it came - a DISCOVER without a host name
+	// erased the name learned before)
+	r.Rule("name-stores", "every store into a NameEntry field of a host or MAC entry is the result of Merge", 6)
+	{
+		kgn := core.NewKeyGen()
+		for _, fn := range c.P.ModuleFunctions() {
+			core.EachInstr(fn, func(i ssa.Instruction) {
+				st, ok := i.(*ssa.Store)
+				if !ok {
+					return
+				}
+				fa, ok := st.Addr.(*ssa.FieldAddr)
+				if !ok {
+					return
+				}
+				owner := fieldOwner(fa)
+				if !(strings.HasPrefix(owner, "packet.MACEntry.") || strings.HasPrefix(owner, "packet.Host.")) || !strings.HasSuffix(st.Val.Type().String(), "packet.NameEntry") {
+					return
+				}
+				if al, isAl := fa.X.(*ssa.Alloc); isAl && al.Comment == "complit" {
+					return
+				}
+				status, det := core.Violated, core.FuncName(fn)+" stores "+norm(st.Val)+" into "+owner+" as it came: an entry without a name erases the name that was known"
+				v := st.Val
+				if ex, isE := v.(*ssa.Extract); isE && ex.Index == 0 {
+					if call, isC := ex.Tuple.(*ssa.Call); isC && call.Call.StaticCallee() != nil && call.Call.StaticCallee().String() == "("+core.ModPath+".NameEntry).Merge" {
+						status, det = core.Proved, ""
+					}
+				}
+				// the merged value carried through a local (newEntry, modified := old.Merge(e); field = newEntry)
+				if status != core.Proved {
+					for w := range dataSlice(fn, v) {
+						if call, isC := w.(*ssa.Call); isC && call.Call.StaticCallee() != nil && call.Call.StaticCallee().String() == "("+core.ModPath+".NameEntry).Merge" {
+							status, det = core.Proved, ""
+						}
+					}
+				}
+				r.Add(core.Obligation{Rule: "name-stores", Key: strings.TrimSuffix(kgn.Key("name-stores "+core.FuncName(fn)+" "+owner), "#0"), Func: core.FuncName(fn), Pos: c.P.Pos(core.PosOf(i)), Status: status,
+					Basis: "value = first result of NameEntry.Merge", Detail: det})
+			})
+		}
+	}
 	// an address record is stored under the address its rdata holds: the key of IP4Records / IP6Records is what
 	// netip.AddrFromSlice (AddrFrom4 / AddrFrom16) made of the rdata bytes, with no further conversion (Unmap turns the
 	// well-formed AAAA ::ffff:192.0.2.7 into an IPv4 address in the AAAA table)
